@@ -6,7 +6,7 @@ import numpy as np
 from hypothesis import strategies as st
 
 from mv.quiet import silenced
-from mv.runner import HypPart, Violation
+from mv.runner import FuzzPart, HypPart, Violation
 
 PROPERTY = "C19"
 RULE = ("Hypothesis-generated bond graphs on 2-14 nodes without three-membered rings in which every node has a bond: "
@@ -409,4 +409,5 @@ def oracle(c, stats):
 
 PARTS = [
     HypPart("graphs", lambda tier: case(), oracle, {"quick": 5000, "thorough": 60000}),
+    FuzzPart("coverage-guided-graphs", "graphs", runs=5000),
 ]
